@@ -68,6 +68,9 @@ def tlc_check(module, cfg, tag, workers=8, timeout=600, dump=None, extra=None, x
     """Exhaustive model checking. Returns dict(ok, states, distinct, depth, violated, out, finished)."""
     meta = workdir("tlc-" + tag)
     args = ["-workers", str(workers), "-metadir", meta, "-cleanup", "-noGenerateSpecTE", "-config", cfg]
+    if os.environ.get("VERIF_COVERAGE"):
+        # vacuity guard (slower): per-action counts of distinct / generated states go to the evidence
+        args += ["-coverage", "1"]
     if dump:
         args += ["-dumpTrace", "json", dump]
     args += (extra or []) + [module]
@@ -78,7 +81,19 @@ def tlc_check(module, cfg, tag, workers=8, timeout=600, dump=None, extra=None, x
     res["timeout"] = rc == 124
     res["rc"] = rc
     sh(["rm", "-rf", meta])
+    if os.environ.get("VERIF_COVERAGE"):
+        acts = {}
+        for m in re.finditer(r"^<(\w+) line \d+, col \d+ to line \d+, col \d+ of module (\w+)[^>]*>: (\d+):(\d+)", res["out"], re.M):
+            k = m.group(2) + "." + m.group(1)
+            acts[k] = [int(m.group(3)), int(m.group(4))]      # the last report wins (final totals)
+        never = sorted(k for k, v in acts.items() if v[1] == 0)
+        ACTION_COVERAGE.append({"module": module, "config": os.path.basename(cfg), "actions": acts, "never_taken": never})
+        if never:
+            log("  coverage %s: actions never taken in this configuration: %s" % (os.path.basename(cfg), ", ".join(never)))
     return res
+
+
+ACTION_COVERAGE = []
 
 
 def parse_tlc(out):
@@ -275,6 +290,8 @@ class Outcome:
               "coverage": self.cov, "assumptions": self.assumptions,
               "wall_s": round(time.time() - self.t0, 1), "violations": len(self.violations)}
         self.cov["known_findings_confirmed"] = [k[0] for k in self.known]
+        if ACTION_COVERAGE:
+            self.cov["action_coverage"] = ACTION_COVERAGE
         if not self.cov["samples"]:
             self.cov["samples"] = ["(none)"]
         evdir = os.path.join(WORK, "evidence-extra") if getattr(self, "extra", False) else os.path.join(ROOT, "evidence")
